@@ -578,6 +578,27 @@ fn mk_notify(aid: i64) -> Ret<StopCause> {
     })
 }
 
+// the logging notifier, passing the cause on to a Ret wired to the parent (ret_fail!/ret_failthru!)
+fn mk_notify_then(aid: i64, inner: Ret<StopCause>) -> Ret<StopCause> {
+    Ret::new(move |c: Option<StopCause>| {
+        let z = W
+            .try_with(|w| w.try_borrow().ok().and_then(|w| w.refs.get(&aid).map(|a| a.is_zombie())))
+            .ok()
+            .flatten();
+        ev(format!(
+            r#"{{"e":"notify","aid":{},"cause":"{}","zombie":{},"intact":{}}}"#,
+            aid,
+            cause_str(&c),
+            z.unwrap_or(true),
+            payload_intact(&c)
+        ));
+        match c {
+            Some(c) => ret!([inner], c),
+            None => drop(inner),
+        }
+    })
+}
+
 // ---------------------------------------------------------------- ctx
 
 enum Ctx<'a, 'b> {
@@ -940,7 +961,21 @@ fn exec_op(op: &Value, ctx: &mut Ctx) {
                 Ctx::P(a, _) => *a,
                 _ => 0,
             };
-            let notify = mk_notify(aid);
+            // the child's notifier may also be wired to its parent: ret_fail! (any end of the child fails the
+            // parent) or ret_failthru! (only a failed / lost child does)
+            let pn = op.get("pnotify").and_then(|v| v.as_str()).unwrap_or("");
+            let notify = match (pn, &mut *ctx) {
+                ("fail", Ctx::M(_, cx)) => {
+                    let inner: Ret<StopCause> = ret_fail!(cx, "pf{}", aid);
+                    mk_notify_then(aid, inner)
+                }
+                ("failthru", Ctx::M(_, cx)) => {
+                    let inner: Ret<StopCause> = ret_failthru!(cx, "pt{}", aid);
+                    mk_notify_then(aid, inner)
+                }
+                _ => mk_notify(aid),
+            };
+            let pn = if matches!(ctx, Ctx::M(_, _)) { pn } else { "" };
             let actor: Actor<Node>;
             if in_slab {
                 if let Ctx::M(node, cx) = ctx {
@@ -948,8 +983,8 @@ fn exec_op(op: &Value, ctx: &mut Ctx) {
                     actor = node.slab.slab.add(cx, parent, |this| &mut this.slab.slab, notify);
                     w(|w| w.refs.insert(aid, actor.clone()));
                     ev(format!(
-                        r#"{{"e":"acreate","aid":{},"oid":0,"parent":{},"slab":true,"logid":{}}}"#,
-                        aid, parent_aid, actor.id()
+                        r#"{{"e":"acreate","aid":{},"oid":0,"parent":{},"slab":true,"logid":{},"pnotify":"{}"}}"#,
+                        aid, parent_aid, actor.id(), pn
                     ));
                 } else if let Ctx::P(paid, cx) = ctx {
                     // Parent still in Prep: the slab lives outside until Ready
@@ -960,8 +995,8 @@ fn exec_op(op: &Value, ctx: &mut Ctx) {
                     w(|w| w.pslabs.insert(paid, slab));
                     w(|w| w.refs.insert(aid, actor.clone()));
                     ev(format!(
-                        r#"{{"e":"acreate","aid":{},"oid":0,"parent":{},"slab":true,"logid":{}}}"#,
-                        aid, parent_aid, actor.id()
+                        r#"{{"e":"acreate","aid":{},"oid":0,"parent":{},"slab":true,"logid":{},"pnotify":"{}"}}"#,
+                        aid, parent_aid, actor.id(), pn
                     ));
                 } else {
                     panic!("harness: slab create outside actor");
@@ -1001,8 +1036,8 @@ fn exec_op(op: &Value, ctx: &mut Ctx) {
                 actor = own.clone();
                 w(|w| w.refs.insert(aid, actor.clone()));
                 ev(format!(
-                    r#"{{"e":"acreate","aid":{},"oid":{},"parent":{},"slab":false,"logid":{}}}"#,
-                    aid, oid, parent_aid, actor.id()
+                    r#"{{"e":"acreate","aid":{},"oid":{},"parent":{},"slab":false,"logid":{},"pnotify":"{}"}}"#,
+                    aid, oid, parent_aid, actor.id(), pn
                 ));
                 let h = OwnH { oid, aid, own: Some(own) };
                 w(|w| w.owns.insert(oid, h));
